@@ -56,6 +56,7 @@ func (c *operatorCache) alloc() *FDOperator {
 	}
 	op := c.first
 	c.first = op.next
+	verifPoint(vpOpAlloc, op, int(op.index))
 	unlock(&c.locked)
 	return op
 }
@@ -66,6 +67,7 @@ func (c *operatorCache) freeable(op *FDOperator) {
 	// reset all state
 	op.unused()
 	op.reset()
+	verifPoint(vpOpFreeable, op, int(op.index))
 	lock(&c.freelocked)
 	c.freelist = append(c.freelist, op.index)
 	unlock(&c.freelocked)
@@ -81,6 +83,7 @@ func (c *operatorCache) free() {
 	lock(&c.locked)
 	for _, idx := range c.freelist {
 		op := c.cache[idx]
+		verifPoint(vpOpFreeSplice, op, int(idx))
 		op.next = c.first
 		c.first = op
 	}
